@@ -263,7 +263,11 @@ def runProg (d : Disk) (es : List Eff) : Option Nat → Disk × Bool
   | some k => (crash (applyEffs d (es.take k)), false)
 
 /-- a (re)start: the ABCI handshake, then `State.OnStart` → `catchupReplay(stateH+1)`, which (as
-repaired) writes the previous height's #ENDHEIGHT when the WAL lacks it -/
+repaired, fe30a5c + 2666f71) writes the previous height's #ENDHEIGHT when the WAL lacks it. Before
+writing, a strict `SearchForEndHeight` pass looks for a damaged tail: if it finds one,
+`catchupReplay` returns the corruption error, `OnStart` repairs the WAL file and calls it again
+(and refuses to start if a rotated file is damaged). In this model a crash never tears a WAL
+record (that is C15's subject), so the strict pass finds nothing and the marker is written. -/
 def startEffs (c : Chain) (d : Disk) : List Eff :=
   let r := handshake c d
   if r.outcome = .ok then
